@@ -1353,6 +1353,28 @@ def r09_9(ctx):
                 work.append(y)
     toggles = [bi for bi in op_blocks for s in b.blocks[bi]['st'] if s['k'] == 'assign' and s['p']['l'] == state and len(s['p']['pr']) == 1 and s['p']['pr'][0].get('n') == 'on']
     ctx.floor(R, 'toggles of state.on in the op loop', len(toggles), 2)
+    # on/off alternates: every store to state.on after the initial one is the negation of its previous value.  (Deriving
+    # it from the entry index instead — `index % 2 == 0` — is the same thing for even-length arrays only: an odd-length
+    # array is run through twice with dashes and gaps exchanged, so entry i is "on" in one pass and "off" in the next)
+    badv = []
+    nalt = 0
+    allloops = set()
+    for h2, bl2 in cfg.loops().items():
+        allloops |= bl2
+    for bi2, k2, st2 in b.statements():
+        if st2['k'] != 'assign' or bi2 not in cfg.reach or bi2 not in allloops:
+            continue
+        pr2 = st2['p'].get('pr') or []
+        if not (pr2 and pr2[-1].get('k') == 'field' and pr2[-1].get('n') == 'on' and (pr2[-1].get('adt') or '').endswith('DashState')):
+            continue
+        nalt += 1
+        v0 = strip_all(an.rvalue_term(bi2, k2, st2['rv']))
+        okv = v0[0] == 'un' and v0[1] == 'Not' and strip_all(v0[2])[0] == 'field' and strip_all(v0[2])[2] == 'on'
+        if not okv:
+            badv.append(((bi2, k2), v0))
+    ctx.floor(R, 'stores to state.on inside loops', nalt, 3)
+    ctx.check(not badv, R, key + '|on/off alternates', call_line(b, badv[0][0][0]) if badv else b.loc(), 'inside loops state.on is only ever negated',
+              'dash_path sets state.on to %s inside a loop instead of negating it: whether an entry is a dash or a gap then follows the entry index, which is wrong on the second pass through an odd-length array' % (fmt(b, badv[0][1])[:80] if badv else ''))
     ctx.check(not bad, R, key + '|a dash boundary clears the first-segment flag', call_line(b, list(bad.values())[0]) if bad else b.loc(), 'after every toggle in the op loop the flag is false before it is tested again and before the op ends',
               'dash_path toggles state.on while the first-segment flag may still be set, and the flag reaches %s unchanged: the next dash is appended to the buffered first dash (the gap is bridged when the buffer is flushed as one polyline)' % ' and '.join('its test' if k == 'tested' else 'the end of the op' for k in bad))
 
@@ -1623,6 +1645,18 @@ def r04_15(ctx):
         ctx.check(bad is None, R, key + '|%s at bb-order %d not conditioned on the turn' % (d.split('::')[-1], n), call_line(b, bi), 'guards: width test, Option states, subpath flags',
                   'a %s call in stroke_to_path is guarded by %s: the %s is left out for some vertices depending on their geometry, although the region it covers scales with the stroke width' % (d.split('::')[-1], fmt(b, bad) if bad else '', 'join' if 'join' in d else 'cap'))
     ctx.floor(R, 'join/cap call sites in stroke_to_path', n, 4)
+    # caps close the two ends of an open subpath that has at least one segment: every cap_line call is made where the
+    # record of the first segment (the Option holding the start point and its normal) is known to be Some
+    for bi, d, ct in calls_in(ctx, b):
+        if d != ST + 'cap_line':
+            continue
+        def is_start_record(t):
+            t = strip_all(t)
+            return t[0] in ('phi', 'mem', 'rec') and 'Option<(' in b.local_ty(t[1] if t[0] != 'rec' else an.defs[t[1]].local)
+        some = any(vv == 'Some' and is_start_record(scr) for scr, adt, vv, sb in variant_guards(ctx, b, bi))
+        some = some or any(is_call(strip_all(c), 'is_some') and truth and is_start_record(strip_all(c)[2][0]) or is_call(strip_all(c), 'is_none') and not truth and is_start_record(strip_all(c)[2][0]) for c, truth, si in bool_guards(ctx, b, bi))
+        ctx.check(some, R, key + '|cap only on a subpath with a segment', call_line(b, bi), 'cap_line under start record = Some',
+                  'stroke_to_path calls cap_line where the subpath has no first segment on record: a cap is stamped on a bare point (e.g. on the zero-length lead-in the dasher puts before a closed outline that is on all the way round, where it sticks out of the joins)')
 
 
 def r04_12(ctx):
